@@ -44,13 +44,15 @@ Value& STRPOSExpression::value(Context & ctx) const
     if (_args.size() > 2)
     {
       Value& a2 = _args[2]->value(ctx);
-      switch (a2.type().major())
+      if (a2.isNull())
       {
-      case Type::NO_TYPE:
         if (val.lvalue())
           return ctx.allocate(std::move(v));
         val.swap(std::move(v));
         return val;
+      }
+      switch (a2.type().major())
+      {
       case Type::INTEGER:
         s = *a2.integer();
         break;
